@@ -220,6 +220,51 @@ Want(cc) ==
 DriversCorrect == CaseSet = "all" => Got(c) = Want(c)
 
 ---------------------------------------------------------------------------
+(* The drivers are generic in the scalar type T: called with a T that is itself a dual number (seeded in x) every   *)
+(* output carries, in its outer parts, the derivative of one order more.  Layer B instantiated over layer B:       *)
+NB == INSTANCE DualB WITH
+        SAdd <- LAMBDA a, b : B!AddB(B!TDual, a, b), SSub <- LAMBDA a, b : B!SubB(B!TDual, a, b),
+        SMul <- LAMBDA a, b : B!MulB(B!TDual, a, b), SDiv <- LAMBDA a, b : B!DivB(B!TDual, a, b),
+        SNeg <- LAMBDA a : B!NegB(B!TDual, a), SRecip <- LAMBDA a : B!RecipB(B!TDual, a),
+        SZero <- B!ZeroB(B!TDual), SOne <- B!OneB(B!TDual), SOfQ <- LAMBDA q : B!FromFB(B!TDual, q),
+        SMulF <- LAMBDA t, q : B!MulFB(B!TDual, t, q), SDivF <- LAMBDA t, q : B!DivFB(B!TDual, t, q),
+        SAddF <- LAMBDA t, q : B!AddFB(B!TDual, t, q), SSubF <- LAMBDA t, q : B!SubFB(B!TDual, t, q),
+        SFun <- LAMBDA fn, t : B!ElemB(B!TDual, fn, t), SPowi <- LAMBDA t, n : B!PowiB(B!TDual, t, n),
+        SPowf <- LAMBDA t, q : B!PowfB(B!TDual, t, q, q = QInt(2)),
+        SLog <- LAMBDA t, b : B!LogB(B!TDual, t, b), SAtan2 <- LAMBDA t, u : B!Atan2B(B!TDual, t, u),
+        SRe <- LAMBDA t : B!ReB(t), SIsZero <- LAMBDA t : B!IsZeroB(t), SIsOne <- LAMBDA t : B!IsOneB(t),
+        SIsPositive <- LAMBDA t : B!IsPositiveB(t), SIsNegative <- LAMBDA t : B!IsNegativeB(t),
+        FLt <- QLt, FEps <- <<1, 4194304>>, FAbs <- QAbs, FOfQ <- LAMBDA q : q
+DD(re, eps) == [re |-> re, eps |-> eps]                 \* a scalar of type T = Dual
+DConst(p) == DD(p, P0)
+RECURSIVE PowNB(_, _, _)
+PowNB(ty, x, e) == IF e = 0 THEN NB!OneB(ty) ELSE NB!MulB(ty, PowNB(ty, x, e - 1), x)
+TermNB(ty, k, ev, xs) ==
+    LET Acc[i \in 0..Len(ev)] ==
+            IF i = 0 THEN NB!FromRe(ty, DConst(Coef(k, ev))) ELSE NB!MulB(ty, Acc[i - 1], PowNB(ty, xs[i], ev[i]))
+    IN  Acc[Len(ev)]
+EvalNB(ty, k, nv, xs) ==
+    FoldSet(LAMBDA ev, acc : NB!AddB(ty, acc, TermNB(ty, k, ev, xs)), NB!ZeroB(ty), TermsK(k, nv))
+\* second_derivative(g, x) with x : Dual seeded  ->  the value and the first two derivatives as Dual numbers whose eps parts are the derivatives of one order more
+NestedSecondDeriv ==
+    LET x == [re |-> DD(XVal(1), P1), v1 |-> DConst(P1), v2 |-> DConst(P0)]
+        r == EvalNB(B!TDual2, 1, 1, <<x>>)
+        w == ExpThird
+    IN  /\ r.re = DD(w[1], w[2]) /\ r.v1 = DD(w[2], w[3]) /\ r.v2 = DD(w[3], w[4])
+\* second_partial_derivative(g, x, y) with (x, y) : Dual, variable q seeded in the outer direction
+NestedSecondPartial(q) ==
+    LET hd(re, e1, e2) == [re |-> re, eps1 |-> DConst(e1), eps2 |-> DConst(e2), eps1eps2 |-> DConst(P0)]
+        sd(i) == IF i = q THEN P1 ELSE P0
+        r == EvalNB(B!THyperDual, 1, 2, <<hd(DD(XVal(1), sd(1)), P1, P0), hd(DD(XVal(2), sd(2)), P0, P1)>>)
+        f == F(1, 2)
+        at(pp) == AtPoint(pp, 2)
+    IN  /\ r.re = DD(at(f), at(D1(f, q))) /\ r.eps1 = DD(at(D1(f, 1)), at(D1(D1(f, 1), q)))
+        /\ r.eps2 = DD(at(D1(f, 2)), at(D1(D1(f, 2), q))) /\ r.eps1eps2 = DD(at(D1(D1(f, 1), 2)), at(D1(D1(D1(f, 1), 2), q)))
+NestedDriversCorrect ==
+    (CaseSet = "all" /\ c.d = "third_derivative" => NestedSecondDeriv)
+    /\ (CaseSet = "all" /\ c.d = "second_partial_derivative" => NestedSecondPartial(1) /\ NestedSecondPartial(2))
+
+---------------------------------------------------------------------------
 (* export ("num" mode): the closure (terms with integer coefficients), the point, the expected output *)
 NV(cc) == CASE cc.d \in {"first_derivative", "second_derivative", "third_derivative"} -> 1
             [] cc.d = "second_partial_derivative" -> 2
